@@ -1029,6 +1029,9 @@ func (fsys *BackupFS) tryBackup(resolvedName string) (err error) {
 		defer sf.Close()
 		err = copyFile(fsys.backup, resolvedName, info, sf)
 		if err != nil {
+			// do not leave a partial copy behind: it is not tracked and
+			// would neither be completed nor removed later on
+			_ = fsys.backup.Remove(resolvedName)
 			return err
 		}
 		fsys.setInfoIfNotAlreadySeen(resolvedName, info)
@@ -1042,6 +1045,8 @@ func (fsys *BackupFS) tryBackup(resolvedName string) (err error) {
 			info,
 		)
 		if err != nil {
+			// see above, do not leave a partial copy behind
+			_ = fsys.backup.Remove(resolvedName)
 			return err
 		}
 		fsys.setInfoIfNotAlreadySeen(resolvedName, info)
@@ -1072,6 +1077,9 @@ func (fsys *BackupFS) backupDirs(resolvedDirPath string) (err error) {
 		// is a directory, backup the directory
 		err = copyDir(fsys.backup, resolvedSubDirPath, fi)
 		if err != nil {
+			// see tryBackup, do not leave a partial copy behind
+			// (Remove only removes the directory if it is empty)
+			_ = fsys.backup.Remove(resolvedSubDirPath)
 			return false, err
 		}
 		fsys.setInfoIfNotAlreadySeen(resolvedSubDirPath, fi)
